@@ -344,7 +344,9 @@ theorem grammar_P {σ : Schema} {ts ts' : List Token} (ht : TsOk PTok ts)
       · cases h1
       · rename_i u ts0 h0
         exact parsePackageLoop_P _ _ _ _ _ ((eat_good (P := PTok) _ ht).ok_of h0) h1 (by simp)
-    exact parseDefs_P _ _ _ _ _ k1 ⟨hpkg.1, hpkg.2, by simp, by simp, by simp⟩ h
+    split at h
+    · cases h; exact ⟨hpkg.1, hpkg.2, by simp, by simp, by simp⟩
+    · exact parseDefs_P _ _ _ _ _ k1 ⟨hpkg.1, hpkg.2, by simp, by simp, by simp⟩ h
 
 /-! ### ResolveRefs keeps the invariant -/
 
